@@ -9,13 +9,13 @@ from ..findings import still_fails
 
 ID = "C03"
 LEAN_MODULES = ["PycModel.Properties.C03"]
-NAMESPACES = ["PycModel.C03", "PycModel.Tables"]
-REQUIRED_THEOREMS = ["PycModel.C03.denote_ofDerivs", "PycModel.C03.ident_ofDerivs",
+NAMESPACES = ["PycModel.C03", "PycModel.Tables", "PycModel.TypeModify", "PycModel.DeclSkel"]
+REQUIRED_THEOREMS = ["PycModel.C03.denote_ofDerivs", "PycModel.C03.ident_ofDerivs", "PycModel.C03.type_modify_appends", "PycModel.C03.declarators_are_read_inside_out", "PycModel.C03.chain_is_denote", "PycModel.TypeModify.typeModify_chain", "PycModel.DeclSkel.parse_declarator", "PycModel.DeclSkel.all_d", "PycModel.DeclSkel.pointer_ok", "PycModel.DeclSkel.suffix_arr", "PycModel.DeclSkel.suffix_fn0",
                      "PycModel.Tables.model_decl_start", "PycModel.Tables.model_type_qualifier",
                      "PycModel.Tables.model_storage_class", "PycModel.Tables.model_type_spec_simple"]
 LEVEL = "proof"
 TRUSTED = ["Spec/Decl.lean: our reading of C99 6.7.5 and of the documented AST shapes"]
-ASSUMPTIONS = ["the theorem that the *parser model* returns chainVal(denote D) for all D is not yet proved; the universal part proved so far is about the specification (every derivation list is denoted, names and redundant parentheses) and the tables"]
+ASSUMPTIONS = ["proved for the parser model, any size: _type_modify_decl appends chains; named declarators of pointers(+qualifiers) / array suffixes with optional bound / empty function suffixes / parentheses parse to the chain denote prescribes (C03.declarators_are_read_inside_out, chain_is_denote). Not a theorem: parameter lists, abstract declarators, static/qualifiers/* in brackets, and the declaration around the declarator - those rest on the exhaustive comparison"]
 
 
 def gen_multi(rng):
